@@ -182,6 +182,9 @@ class SimTor:
             lines = self.info.get(key, [])
             if not lines:
                 return '250-%s=\r\n250 OK\r\n' % key
+            if len(lines) == 1:
+                # like Tor: a value without a line break is sent in the single-line form
+                return '250-%s=%s\r\n250 OK\r\n' % (key, lines[0])
             return '250+%s=\r\n' % key + ''.join(('.' + l if l.startswith('.') else l) + '\r\n' for l in lines) + '.\r\n250 OK\r\n'
         if key.startswith('status/bootstrap-phase'):
             return '250-status/bootstrap-phase=NOTICE BOOTSTRAP PROGRESS=100 TAG=done SUMMARY="Done"\r\n250 OK\r\n'
